@@ -14,6 +14,10 @@ func genC04XL(p *Plan, r *RNG) {
 		p.Cfg.Extra["udp2"] = 1
 		nl = 3
 	}
+	if r.Chance(1, 3) {
+		p.Cfg.Extra["sharegen"] = 1 // one generator instance for all listeners, no permission handler
+		p.Flavor += "+shared-generator"
+	}
 	addrs := []string{"10.0.1.1:4000", "10.0.1.1:4001", "10.0.1.2:4000"}
 	// one endpoint per (listener, address); the first two share an address across UDP and TCP
 	type la struct {
